@@ -561,7 +561,7 @@ pub fn parse_copy_into(parser: &mut Parser) -> Result<Statement, ParserError> {
     let mut validation_mode = None;
     if parser.parse_keyword(Keyword::VALIDATION_MODE) {
         parser.expect_token(&Token::Eq)?;
-        validation_mode = Some(parser.next_token().token.to_string());
+        validation_mode = Some(parse_parameter_value(parser, "a validation mode")?);
     }
 
     Ok(Statement::CopyIntoSnowflake {
@@ -683,7 +683,7 @@ fn parse_stage_params(parser: &mut Parser) -> Result<StageParamsObject, ParserEr
     // STORAGE INTEGRATION
     if parser.parse_keyword(Keyword::STORAGE_INTEGRATION) {
         parser.expect_token(&Token::Eq)?;
-        storage_integration = Some(parser.next_token().token.to_string());
+        storage_integration = Some(parse_parameter_value(parser, "a storage integration name")?);
     }
 
     // ENDPOINT
@@ -718,6 +718,17 @@ fn parse_stage_params(parser: &mut Parser) -> Result<StageParamsObject, ParserEr
         storage_integration,
         credentials,
     })
+}
+
+/// Parses the value of a `<name> = <value>` parameter that is given as a
+/// word or a string, and returns it as written. Any other token, such as the
+/// end of the statement, is not a value.
+fn parse_parameter_value(parser: &mut Parser, expected: &str) -> Result<String, ParserError> {
+    let next_token = parser.next_token();
+    match next_token.token {
+        Token::Word(_) | Token::SingleQuotedString(_) => Ok(next_token.token.to_string()),
+        _ => parser.expected(expected, next_token),
+    }
 }
 
 /// Parses options provided within parentheses like:
